@@ -88,6 +88,9 @@ where
 pub(crate) struct SliceByLine<'s, M, S> {
     core: Core<'s, M, S>,
     slice: &'s [u8],
+    /// Verification hook: see `SearcherBuilder::verif_sniff_capacity`.
+    #[cfg(ripgrep_verif)]
+    verif_sniff_capacity: Option<usize>,
 }
 
 impl<'s, M: Matcher, S: Sink> SliceByLine<'s, M, S> {
@@ -102,6 +105,8 @@ impl<'s, M: Matcher, S: Sink> SliceByLine<'s, M, S> {
         SliceByLine {
             core: Core::new(searcher, matcher, write_to, true),
             slice,
+            #[cfg(ripgrep_verif)]
+            verif_sniff_capacity: searcher.config.verif_sniff_capacity,
         }
     }
 
@@ -109,6 +114,11 @@ impl<'s, M: Matcher, S: Sink> SliceByLine<'s, M, S> {
         if self.core.begin()? {
             let binary_upto =
                 std::cmp::min(self.slice.len(), DEFAULT_BUFFER_CAPACITY);
+            #[cfg(ripgrep_verif)]
+            let binary_upto = std::cmp::min(
+                binary_upto,
+                self.verif_sniff_capacity.unwrap_or(binary_upto),
+            );
             let binary_range = Range::new(0, binary_upto);
             if !self.core.detect_binary(self.slice, &binary_range)? {
                 while !self.slice[self.core.pos()..].is_empty()
@@ -158,6 +168,11 @@ impl<'s, M: Matcher, S: Sink> MultiLine<'s, M, S> {
         if self.core.begin()? {
             let binary_upto =
                 std::cmp::min(self.slice.len(), DEFAULT_BUFFER_CAPACITY);
+            #[cfg(ripgrep_verif)]
+            let binary_upto = std::cmp::min(
+                binary_upto,
+                self.config.verif_sniff_capacity.unwrap_or(binary_upto),
+            );
             let binary_range = Range::new(0, binary_upto);
             if !self.core.detect_binary(self.slice, &binary_range)? {
                 let mut keepgoing = true;
